@@ -6,7 +6,7 @@ case = {
             {'at': t, 'op': 'await', 'x': int, 'delay': d, 'fail': bool}
             {'at': t, 'op': 'map',  'kind': 'list'|'range'|'tuple'|'gen'|'iter', 'xs': [ints], 'fail_at': None|i, 'delay': d}
             {'at': t, 'op': 'amap', 'xs': [ints], 'fail_at': None|i, 'delay': d}
-            {'at': t, 'op': 'wait', 'cancel': bool} ],
+            {'at': t, 'op': 'wait', 'cancel': bool} ],      any op may carry 'iters': n = n extra loop iterations before it
   'foreign': [ [ {'gap': g, 'op': 'call'|'map'|'await'|'wait', ...}, ... ], ... ],    one list per foreign thread
   'shutdown': None | t        the owner's main returns at t (asyncio.run then cancels the background task)
   'sched': {...}
@@ -188,6 +188,8 @@ def run(case, max_steps=120000):
                 d = t0 + op['at'] - loop.time()
                 if d > 0:
                     await aio.sleep(d)
+                for _ in range(op.get('iters', 0)):      # position inside the instant, in loop iterations
+                    await aio.sleep(0)
                 if op['op'] == 'wait':
                     t = loop.create_task(do_wait(buf, op['cancel'], 'owner'))
                     w.keep.append(t)
